@@ -111,13 +111,13 @@ func (a *AgentService) SendResponse(AgentInfo any, Header agent.Header) []byte {
 
     logger.Debug(AgentResponse)
 
+    var channel = make(chan []byte)
+
+    a.client.Mutex.Lock()
     if a.client.Responses == nil {
         a.client.Responses = make(map[string]chan []byte)
     }
-
-    a.client.Responses[randID] = make(chan []byte)
-
-    a.client.Mutex.Lock()
+    a.client.Responses[randID] = channel
     err := a.client.Conn.WriteJSON(AgentResponse)
     a.client.Mutex.Unlock()
 
@@ -126,13 +126,12 @@ func (a *AgentService) SendResponse(AgentInfo any, Header agent.Header) []byte {
         return nil
     }
 
-    var data []byte
-    if channel, ok := a.client.Responses[randID]; ok {
-        data = <-channel
+    // the channel is closed without a value when the service connection goes away
+    var data = <-channel
 
-        close(a.client.Responses[randID])
-        delete(a.client.Responses, randID)
-    }
+    a.client.Mutex.Lock()
+    delete(a.client.Responses, randID)
+    a.client.Mutex.Unlock()
 
     return data
 }
